@@ -1075,8 +1075,8 @@ static const char *CENTRES[] = {"lowcorner", "highcorner", "middle", "seam"};
 static const char *DISTS[] = {"zero", "tiny", "extent", "x10", "x1000"};
 static const double DISTF[] = {0.0, 1e-9, 1.0, 10.0, 1000.0};
 
-// constrained spaces: a centre is a state of the space, i.e. on the constraint manifold (the unit sphere); the
-// nearest point of the sphere, clamped back into the box when the sphere sticks out of it
+// constrained spaces: a centre is a state of the space, i.e. on the constraint manifold (the unit sphere): the
+// point of the sphere in the direction of the generic centre (corner directions lie inside both boxes used)
 static void ontoSphere(const Space &S, ob::State *s)
 {
     if (!S.d.contains("con"))
@@ -1086,12 +1086,13 @@ static void ontoSphere(const Space &S, ob::State *s)
         std::vector<double> v = leafValues(L);
         double n = std::sqrt(v[0] * v[0] + v[1] * v[1] + v[2] * v[2]);
         if (n < 1e-9)
-            v = {0, 0, 1}, n = 1;
+            v = {1, 1, 1}, n = std::sqrt(3.0);
         for (double &x : v)
             x /= n;
         setLeafValues(L, v);
     }
-    S.sp->enforceBounds(s);
+    if (!S.sp->satisfiesBounds(s))
+        framework("centre of a constrained space is out of bounds: " + S.name);
 }
 
 // centre state of class c, written leaf by leaf from the REAL bounds
